@@ -323,7 +323,20 @@ func ruleDeadline(c *Ctx, a *tcpAnchors) {
 		return true
 	}
 	n := 0
-	for _, cl := range reg.Calls() {
+	// the authenticators themselves (and what they call in the package) run before the result is known
+	inAuth := map[ssa.Instruction]bool{}
+	calls := reg.Calls()
+	for _, af := range a.auths {
+		for _, f := range regionFns(c, af, nil, 3) {
+			for _, cl := range eng.Calls(f) {
+				if !inAuth[cl] {
+					inAuth[cl] = true
+					calls = append(calls, cl)
+				}
+			}
+		}
+	}
+	for _, cl := range calls {
 		call, ok := cl.(*ssa.Call)
 		if !ok {
 			continue
@@ -334,7 +347,7 @@ func ruleDeadline(c *Ctx, a *tcpAnchors) {
 		}
 		arg := eng.Arg(&call.Call, 0)
 		zero := eng.IsZeroValue(p.Resolve(arg)) || isZeroStructLoad(p, arg)
-		if isPre(call, 0) {
+		if inAuth[cl] || isPre(call, 0) {
 			n++
 			ok2, bad := p.AllFrom(arg, eng.OriginOpts{ThroughConvert: true, Interproc: true, ThroughCalls: func(cc *ssa.Call) []ssa.Value {
 				switch eng.CalleeName(&cc.Call) {
@@ -425,6 +438,9 @@ func runC07(c *Ctx) {
 	if a != nil {
 		ruleSilent(c, a)
 		ruleGates(c, a, "GATE7")
+	}
+	if a != nil {
+		ruleDeadline(c, a) // "treated exactly like an invalid probe": a refused replay is closed at the same deadline
 	}
 	ruleOneCache(c)
 	ruleSaltSlice(c, "GATE")
